@@ -198,6 +198,49 @@ func facetGenOK(args []string) error {
 		bs, _ := json.Marshal(doc)
 		srcs = append(srcs, src{kind: "orphans", g: flags(GenSpec{Name: fmt.Sprintf("g%02d_o%03d", *shard, i), Spec: bs, Ext: "json"}, rng.Fork())})
 	}
+	// parameters and response headers whose schema is nullable, optional or required, scalar or array,
+	// inline or through a component: two wrappers around one value in every generated parser
+	for i := 0; i < 2; i++ {
+		types := []map[string]any{{"type": "string"}, {"type": "integer"}, {"type": "integer", "format": "int64"}, {"type": "boolean"}, {"type": "number"}, {"type": "string", "format": "date-time"}}
+		mk := func(nullable bool) map[string]any {
+			t := map[string]any{}
+			for k, v := range Pick(rng, types) {
+				t[k] = v
+			}
+			if nullable {
+				t["nullable"] = true
+			}
+			return t
+		}
+		var params []any
+		schemas := map[string]any{"Plain": map[string]any{"type": "integer"}}
+		for k, loc := range []string{"query", "query", "header", "header", "query"} {
+			p := map[string]any{"in": loc, "name": fmt.Sprintf("p%d", k), "schema": mk(rng.Chance(2, 3))}
+			if rng.Bool() {
+				p["required"] = true
+			}
+			if k == 1 && rng.Bool() {
+				p["schema"] = map[string]any{"type": "array", "items": mk(false)}
+			}
+			params = append(params, p)
+		}
+		hdrs := map[string]any{"X-A": map[string]any{"schema": mk(true)}, "X-B": map[string]any{"schema": mk(true), "required": true}}
+		doc := map[string]any{"openapi": "3.0.3", "info": map[string]any{"title": "t", "version": "1"}, "components": map[string]any{"schemas": schemas},
+			"paths": map[string]any{"/things/{id}": map[string]any{"get": map[string]any{
+				"parameters": append(params, map[string]any{"in": "path", "name": "id", "required": true, "schema": mk(rng.Bool())}),
+				"responses":  map[string]any{"200": map[string]any{"description": "d", "headers": hdrs}}}}}}
+		bs, _ := json.Marshal(doc)
+		srcs = append(srcs, src{kind: "nullable-params", g: flags(GenSpec{Name: fmt.Sprintf("g%02d_u%03d", *shard, i), Spec: bs, Ext: "json"}, rng.Fork())})
+	}
+	if *shard%8 == 0 {
+		// fixed witness of the recorded finding KF-C01-nullableComponent: a parameter whose schema is a
+		// reference to a nullable primitive component
+		w := `{"openapi":"3.0.3","info":{"title":"t","version":"1"},"paths":{"/things":{"get":{"parameters":[{"in":"query","name":"p4","schema":{"$ref":"#/components/schemas/NInt"}}],"responses":{"200":{"description":"d"}}}}},"components":{"schemas":{"NInt":{"type":"integer","nullable":true}}}}`
+		srcs = append(srcs, src{kind: "nullable-component", g: GenSpec{Name: fmt.Sprintf("g%02d_w000", *shard), Spec: []byte(w), Ext: "json", Client: *shard%16 == 0, DoNotEdit: true}})
+		// ... and its sibling: a parameter whose (inline) array schema is nullable
+		w2 := `{"openapi":"3.0.3","info":{"title":"t","version":"1"},"paths":{"/things":{"get":{"parameters":[{"in":"query","name":"p1","schema":{"type":"array","nullable":true,"items":{"type":"string"}}}],"responses":{"200":{"description":"d"}}}}}}`
+		srcs = append(srcs, src{kind: "nullable-component", g: GenSpec{Name: fmt.Sprintf("g%02d_w001", *shard), Spec: []byte(w2), Ext: "json", Client: *shard%16 == 0, DoNotEdit: true}})
+	}
 	positions := []string{"query", "header", "pathparam", "prop", "schema", "opid", "seg"}
 	for i := 0; i < nStress; i++ {
 		pos := positions[(i+*shard)%len(positions)]
